@@ -243,10 +243,10 @@ def check(ctx):
                     base = t.value if isinstance(t, ast.Subscript) else t
                     if unparse(base) in ("self.cmd", "self.args"):
                         n_w += 1
-                        ctx.ob("R4", f"{SP}:SubprocSpec.{name}", f"`{short(n, 60)}`: the command list is written by a known resolver", name in CMD_WRITERS, key=f"{name}|unknown-cmd-writer", where=loc(n))
+                        ctx.ob("R4", f"{SP}:SubprocSpec.{name}", f"`{short(n, 60)}`: the command list is written by a known resolver", name in CMD_WRITERS or only_called_from(ctx.repo, sp, f"SubprocSpec.{name}", {f"SubprocSpec.{w_}" for w_ in CMD_WRITERS}), key=f"{name}|unknown-cmd-writer", where=loc(n))
             if isinstance(n, ast.Call) and isinstance(n.func, ast.Attribute) and unparse(n.func.value) in ("self.cmd", "self.args") and n.func.attr in ("insert", "append", "extend", "pop", "remove"):
                 n_w += 1
-                ctx.ob("R4", f"{SP}:SubprocSpec.{name}", f"`{short(n, 60)}`: the command list is written by a known resolver", name in CMD_WRITERS, key=f"{name}|unknown-cmd-writer", where=loc(n))
+                ctx.ob("R4", f"{SP}:SubprocSpec.{name}", f"`{short(n, 60)}`: the command list is written by a known resolver", name in CMD_WRITERS or only_called_from(ctx.repo, sp, f"SubprocSpec.{name}", {f"SubprocSpec.{w_}" for w_ in CMD_WRITERS}), key=f"{name}|unknown-cmd-writer", where=loc(n))
     if n_w < 6:
         raise AnalysisError(f"only {n_w} writers of SubprocSpec.cmd found")
     scan = [(SP, f"SubprocSpec.{n}", fn) for n, fn in ms.items() if n in CMD_WRITERS | {"run", "_run_binary", "build", "prep_env_subproc"}]
@@ -296,13 +296,12 @@ def check(ctx):
     # what the user wrote.
     al = ctx.repo.module(AL)
     for q, seeds_ in (("Aliases.get", None), ("Aliases.eval_alias", {"acc_args"})):
-        fn = al.func(q)
+        fn = flat(ctx, al.func(q), depth=2, skip=("eval_alias", "_normalize_return_command_result", "print_exception", "get", "swap"))
         site = f"{AL}:{q}"
         tracked = set(seeds_ or ())
         if seeds_ is None:
-            for n in walk_local(fn):
-                if isinstance(n, ast.Assign) and isinstance(n.value, ast.Subscript) and isinstance(n.value.slice, ast.Slice) and unparse(n.value.value) == "key" and const_value(n.value.slice.lower) == 1 and n.value.slice.upper is None:
-                    tracked |= {t.id for t in n.targets if isinstance(t, ast.Name)}
+            keyp = param_name(fn, 0)
+            tracked |= names_defined_by(fn, lambda v: isinstance(v, ast.Subscript) and isinstance(v.slice, ast.Slice) and unparse(v.value) == keyp and const_value(v.slice.lower) == 1 and v.slice.upper is None)
             if not tracked:
                 raise AnchorMissing(f"{site}: `args = key[1:]` not found")
         elif not any(a_.arg in tracked for a_ in fn.args.args):
@@ -343,10 +342,14 @@ def check(ctx):
                     changed = True
         # the alias being resolved: the value parameter (eval_alias) / what was looked up in the table (get)
         alias_vars = {param_name(fn, 0)} | names_defined_by(fn, lambda v: isinstance(v, ast.Call) and (call_name(v) or "").startswith("self._raw.")) | {"value", "val"}
+        _fd = df.all_defs(fn)
+        alias_vars = {c_ for a_ in list(alias_vars) for c_ in alias_class(_fd, a_)}
         result_vars = names_bound_to_call(fn, lambda nm_: nm_ == "self.eval_alias")
         n_flow = 0
         for n in walk_local(fn):
             if isinstance(n, ast.Call):
+                if getattr(stmt_of(n), "_xv_call_marker", False):
+                    continue  # the call of an expanded helper: its body is judged instead
                 targs = [a_ for a_ in list(n.args) + [k.value for k in n.keywords] if mentions(a_, tracked)]
                 if not targs:
                     continue
